@@ -74,7 +74,9 @@ CLAIMED = {
          "write only their receiver) every schedule gives the sequential results at the model level. What no model can exhibit - "
          "the Go memory model, sync.Pool internals, real data races on words - is sampled by the runtime half: k in {2,8,32} "
          "goroutines over shared 40-260 word operands under GOMAXPROCS {1,4,16} with forced collections, every result compared "
-         "with the sequential one and operands re-checked; the thorough tier repeats it under the Go race detector.",
+         "with the sequential one and operands re-checked (the parallel phase also runs Sqrt, Text, MarshalText and Float64, which "
+         "the L3 model does not have, against a sequential reference); the thorough tier repeats it under the Go race detector "
+         "with the portable Go kernels (the detector cannot see the assembly kernels).",
     design_ref="DESIGN.md section 6 C18",
     note="Proof covers the ownership discipline only; data-race freedom of the real runtime is exploration (stated as such).",
     technique="Coq proof of pool ownership over all interleavings + concurrent differential runs (race detector in thorough)"),
@@ -86,7 +88,7 @@ CLAIMED = {
          "recorded; Add into a receiver distinct from its operands is the exact sum rounded once to the context's precision and "
          "mode whatever attributes the receiver had. The model is tied to context.go by correspondence: " + CORR + ".",
     design_ref="DESIGN.md section 6 C19",
-    note="The rounding theorem is stated for Add (the other operations go through the same apply lemma); Sqrt through a Context is not modelled in L5.",
+    note="The rounding theorem is stated for Add (the other operations go through the same apply lemma); Context.Sqrt is modelled (CSqrt) and covered by the latch theorems.",
     technique="Coq proof by induction over operation sequences on a state-machine model + correspondence"),
  "C08": dict(
     category="proof",
